@@ -298,6 +298,9 @@ func c15Run(c *mon.Ctx, unit int) {
 		default:
 			s, class = gen.Everything(r, gen.EverythingOpts{MaxDepth: r.Range(1, 4), MaxWidth: 4}).S, "all features"
 		}
+		if k == 1 {
+			s, class = &model.Schema{Root: gen.BigShape(r)}, "large rule-free schema"
+		}
 		s.OptKeys = r.Chance(1, 8)
 		sp := specOf(s, model.Style{})
 		rawBytes := false
